@@ -124,7 +124,7 @@ func encBufString(c *Ctx, t Term, bufT Term) bool {
 
 // encCond: truth of a condition over the encoder's output E = <encoded>+"\n" / over the encoder's error (T, F) or U.
 func encCond(c *Ctx, t Term, bufT Term, par types.Object) Tri {
-	t = simplify(t)
+	t = c.normByteStrings(simplify(t)) // bytes.HasSuffix(buf.Bytes(), []byte("\n")) reads as strings.HasSuffix(buf.String(), "\n")
 	if u, ok := t.(TUn); ok && u.Op == token.NOT {
 		switch encCond(c, u.X, bufT, par) {
 		case T:
@@ -474,6 +474,10 @@ func (e *emitter) tokens(t Term) []sTok {
 		if ts, ok := e.strs[key(TVar{x.Obj})]; ok {
 			return append([]sTok(nil), ts...)
 		}
+	case TVar:
+		if ts, ok := e.strs[key(x)]; ok {
+			return append([]sTok(nil), ts...)
+		}
 	case TIndex:
 		// parts[i]: an item of the accumulated / made string slice
 		if items, ok := e.listOf(x.X); ok {
@@ -717,7 +721,16 @@ func (e *emitter) loop(l *LoopRec) bool {
 		l = r
 	}
 	counted := false
-	if l.Range == nil || !e.v.isRecvSpine(l.Over) {
+	var listItems [][]sTok
+	listRange := false
+	if l.Range != nil && !e.v.isRecvSpine(l.Over) {
+		// a range over the items accumulated so far (for _, part := range parts): visited item by item
+		if items, ok := e.listOf(l.Over); ok {
+			listRange, listItems = true, append([][]sTok(nil), items...)
+		}
+	}
+	if listRange {
+	} else if l.Range == nil || !e.v.isRecvSpine(l.Over) {
 		// a counted loop over already accumulated items (for i := 0; i < len(parts); i++): unrolled while its condition holds
 		if l.For == nil || l.CondT == nil {
 			e.why = "a loop that does not range over the receiver's own spine"
@@ -727,7 +740,7 @@ func (e *emitter) loop(l *LoopRec) bool {
 	}
 	saveK, saveV := e.keyVar, e.valVar
 	defer func() { e.keyVar, e.valVar, e.iter = saveK, saveV, -1 }()
-	if counted {
+	if counted || listRange {
 		e.keyVar, e.valVar = nil, nil
 	} else {
 		e.keyVar, e.valVar = l.Key, l.Value
@@ -760,8 +773,17 @@ func (e *emitter) loop(l *LoopRec) bool {
 			}
 		}
 	}
-	for t := int64(0); counted || t < e.n; t++ {
-		if counted {
+	limit := e.n
+	if listRange {
+		limit = int64(len(listItems))
+	}
+	for t := int64(0); counted || t < limit; t++ {
+		if listRange {
+			e.iter = -1
+			if l.Value != nil {
+				e.strs[key(TVar{l.Value})] = listItems[t]
+			}
+		} else if counted {
 			if t > 64 {
 				e.why = "a counted loop that does not terminate within 64 iterations"
 				return false
@@ -831,8 +853,9 @@ func (e *emitter) loop(l *LoopRec) bool {
 					te := &termEnv{hook: e.hook}
 					v, ok := te.int(nt)
 					if !ok {
-						e.why = "counter update cannot be folded"
-						return false
+						// no longer known: a later decision that needs it cannot be folded and says so
+						e.ints[k+"#drop"] = 0
+						continue
 					}
 					e.ints[k+"#next"] = v
 				}
@@ -859,6 +882,12 @@ func (e *emitter) loop(l *LoopRec) bool {
 					}
 					e.lists[k] = append(e.lists[k], mergeToks(e.tokens(ap.Args[1])))
 				}
+			}
+		}
+		for k := range e.ints {
+			if strings.HasSuffix(k, "#drop") {
+				delete(e.ints, strings.TrimSuffix(k, "#drop"))
+				delete(e.ints, k)
 			}
 		}
 		for k, v := range e.ints {
@@ -1348,7 +1377,7 @@ func c02Scalars(c *Ctx) {
 			ob.Undecided("serialiser is not a single effect-free return")
 			continue
 		}
-		res := paths[0].Vals[0]
+		res := c.normByteStrings(paths[0].Vals[0]) // string(strconv.AppendInt(scratch[:0], …)) reads as strconv.FormatInt(…)
 		call, isCall := res.(TCall)
 		switch kind {
 		case "nil":
